@@ -5,19 +5,24 @@ CONSTANTS
   Catalog <- Cat64
   MaxR = 2
   KVals <- K3
-  Orders <- OrdTwo
+  Orders <- OrdOne
   FullOrder = TRUE
   Points <- Pts2
   Feeds <- NoFeeds
   PhaseMaps <- Ph1
   ReKVals <- NoReK
   MaxHist = 0
+  NameMap <- NmId
+  PForms <- PfAll
+  Containers <- CtList
+  OvKVals <- Ov3
 INVARIANT PolyAgreesWithFold
 INVARIANT PermutationInvariant
 INVARIANT InactiveNotInExponent
 INVARIANT UntouchedGetNothing
 INVARIANT FeedExact
 INVARIANT CurrentConstantRules
+INVARIANT StoichDecomposes
 INVARIANT NetCountsInactive
 INVARIANT PointSeparates
 INVARIANT PolysNormal
